@@ -5,8 +5,8 @@
 # not an alarm; exit 1 is a FALSE ALARM of the check and must be fixed in the machinery.
 HERE="$(cd "$(dirname "${BASH_SOURCE[0]}")/.." && pwd)"; cd "$HERE"
 rc=0
-for f in harmless/*${1:-}*.diff; do
-  b="$(basename "$f")"; prop="${b%%-*}"
+for d in harmless/*${1:-}*/; do f="$d/patch.diff"; [ -f "$d/patch.rebased.diff" ] && f="$d/patch.rebased.diff"
+  b="$(basename "$(dirname "$f")")"; prop="${b%%-*}"
   # extra properties to run are listed in a first-line comment:  # also: C10 C11
   also="$(grep -m1 '^# also:' "$f" | sed 's/# also://')"
   for p in $prop $also; do
